@@ -9,6 +9,10 @@ prog = mir.prog()
 p = os.path.join(V, "oracle", "diag_table.json")
 tab = json.load(open(p)) if os.path.exists(p) else {}
 sections = sys.argv[1:] or ["checker", "parser", "limits"]
+if "sort" in sections or len(sys.argv) == 1:
+    from rules import sortrules
+    fids = [f for f in prog.bodies if prog.bodies[f].file == "a2lfile/src/sort.rs"]
+    tab["sort"] = sortrules.sort_table(prog, fids)
 if "limits" in sections:
     from rules import c12
     tab["limits"] = c12.limits_table(prog)
